@@ -131,12 +131,67 @@ def streamInt (s : Str) : Int :=
   | '+' :: r => streamIntUnsigned false r
   | _ => streamIntUnsigned false s
 
-/-- TextTools::toDouble (TextTools.cpp:227-232): `none` = Exception -/
+/-- the translation of the caller's characters to the stream's (TextTools.cpp:231-238) -/
+def trChar (dec sci : Char) (c : Char) : Char := if c == dec then '.' else if c == sci then 'e' else c
+
+/-- TextTools::toDouble (TextTools.cpp:227-240), after the repair "fix: TextTools::toDouble validated
+with the caller's decimal separator / exponent character but converted with a stream that only
+knows '.' and 'e'": `none` = Exception -/
 def toDouble (dec sci : Char) (s : Str) : Option Rat :=
+  if isDecimalNumber dec sci s then some (streamDouble (s.map (trChar dec sci))) else none
+
+/-- the code before that repair: the accepted text went to the stream as it was -/
+def toDoubleNoTr (dec sci : Char) (s : Str) : Option Rat :=
   if isDecimalNumber dec sci s then some (streamDouble s) else none
 
-/-- TextTools::toInt (TextTools.cpp:218-223): `none` = Exception -/
+/-- `-INT_MIN`: the `long long` of `toInt` saturates at `lim + 1` -/
+def toIntLim : Nat := 2147483648
+
+/-- `m = m * 10 + d; if (m > lim) m = lim + 1;` -/
+def satStep (m d : Nat) : Nat := if m * 10 + d > toIntLim then toIntLim + 1 else m * 10 + d
+
+/-- the mantissa loop (TextTools.cpp:229-234): up to the exponent mark or the end; returns the
+saturated mantissa and what is left (starting at the mark) -/
+def satMant (sci : Char) : Nat → Str → Nat × Str
+  | m, [] => (m, [])
+  | m, c :: r => if c == sci then (m, c :: r) else satMant sci (satStep m (digitVal c)) r
+
+/-- the exponent loop (:240-245): saturates at 11 -/
+def satExp : Nat → Str → Nat
+  | e, [] => e
+  | e, c :: r => satExp (if e * 10 + digitVal c > 10 then 11 else e * 10 + digitVal c) r
+
+/-- the scaling loop (:246-251): `e` multiplications by 10, none when the mantissa is 0 -/
+def satMul : Nat → Nat → Nat
+  | 0, m => m
+  | e + 1, m => if m == 0 then m else satMul e (if m * 10 > toIntLim then toIntLim + 1 else m * 10)
+
+/-- `if (s[i] == '+') ++i;` (:238) -/
+def skipPlus : Str → Str
+  | '+' :: t => t
+  | r => r
+
+/-- the exponent part (:235-252) on what the mantissa loop left: nothing, or the mark and the exponent -/
+def scaleByExp (m : Nat) : Str → Nat
+  | [] => m
+  | _ :: r => satMul (satExp 0 (skipPlus r)) m
+
+/-- TextTools::toInt (TextTools.cpp:218-256), after the repair "fix: TextTools::toInt ignored the
+exponent it accepts": the value of the accepted numeral (mantissa times power of ten), an Exception
+(`none`) when it is not accepted or does not fit an `int` -/
 def toInt (sci : Char) (s : Str) : Option Int :=
+  if !isDecimalInteger sci s then none
+  else
+    let neg := s.head? == some '-'
+    let body := if neg then s.drop 1 else s
+    let mr := satMant sci 0 body
+    let m := scaleByExp mr.1 mr.2
+    if (if neg then decide (m > toIntLim) else decide (m ≥ toIntLim)) then none
+    else some (if neg then - (m : Int) else (m : Int))
+
+/-- the code before that repair: `istringstream >> int`, which stops at the exponent mark and
+clamps to the range -/
+def toIntOld (sci : Char) (s : Str) : Option Int :=
   if isDecimalInteger sci s then some (streamInt s) else none
 
 /-! ## `toString(int)` (`ostringstream << int`) -/
